@@ -31,6 +31,7 @@ import (
 	"github.com/aws/smithy-go/encoding/httpbinding"
 	"github.com/gofiber/fiber/v2"
 	"github.com/valyala/fasthttp"
+	"github.com/versity/versitygw/backend"
 	"github.com/versity/versitygw/s3api/debuglogger"
 	"github.com/versity/versitygw/s3err"
 	"github.com/versity/versitygw/s3response"
@@ -250,7 +251,7 @@ func IsObjectNameValid(name string) bool {
 			return false
 		}
 	}
-	return !strings.Contains(name, "\x00")
+	return !strings.Contains(name, "\x00") && !backend.IsReservedKey(name)
 }
 
 // IsPathComponentValid reports whether an identifier supplied by the client
